@@ -9,9 +9,9 @@ import (
 // zero-width-iteration guard.
 func gramD7() *Gram {
 	at := []*T{lit("a"), {K: SEQ}, anchor("line start", false), anchor("file end", false), anchor("word end", true), anchor("line end", false),
-		{K: IN, Neg: true, Items: []Item{{K: 0, S: "a"}}}}
+		{K: IN, Neg: true, Items: []Item{{K: 0, S: "a"}}}, anchor("word start", true)}
 	return &Gram{Atoms: at, Or: true,
-		Loops: []LoopKind{{0, 1, false}, {0, 1, true}, {0, -1, false}, {0, -1, true}, {0, 2, false}, {0, 2, true}, {1, -1, false}}}
+		Loops: []LoopKind{{0, 1, false}, {0, 1, true}, {0, -1, false}, {0, -1, true}, {0, 2, false}, {0, 2, true}, {1, -1, false}, {2, 2, false}}}
 }
 
 func d7Fixed() []*Prog {
@@ -90,7 +90,7 @@ func init() {
 	register(&Check{
 		ID:    "C10",
 		Level: "model_checking",
-		Rule: "the deterministic VM is run to completion under a step monitor (hook H1 counts executed instructions = transitions of the VM configuration sequence) on every nullable-body program of <= n nodes over {'a', (), line start, file end, not word end, line end, not in 'a'} x {maybe, at least 0, at most 2 (greedy and fewest), at least 1} x or/groups, plus fixed nested/recursive/named-loop programs (incl. stored patterns using stored patterns twice) and replace commands whose `with` list names loops, unbound names and captures of untaken alternatives (the replacer's own instruction loop is covered by the CPU-time watchdog), x every text over {a,\\n} up to length 4; " +
+		Rule: "the deterministic VM is run to completion under a step monitor (hook H1 counts executed instructions = transitions of the VM configuration sequence) on every nullable-body program of <= n nodes over {'a', (), line start, file end, not word end, not word start, line end, not in 'a'} x {maybe, at least 0, at most 2 (greedy and fewest), at least 1, exactly 2} x or/groups, plus fixed nested/recursive/named-loop programs (incl. stored patterns using stored patterns twice) and replace commands whose `with` list names loops, unbound names and captures of untaken alternatives (the replacer's own instruction loop is covered by the CPU-time watchdog), x every text over {a,\\n} up to length 4; " +
 			fmt.Sprintf("a run that executes more than %d instructions or makes no progress for 20 s is a violation; states = executed VM configurations, transitions = instructions executed; non-trivial = runs whose program has a loop with a nullable body", stepBudgetC10),
 		Assume: []string{"budget is ~500x above the largest legitimate step count of the enumerated scope (reported as maxima.vm_steps_per_run)", "loops outside the VM instruction loop are covered by the 20 s per-unit watchdog only"},
 		Budget: map[string]int{"quick": 150, "thorough": 1500},
